@@ -104,9 +104,15 @@ def is_text(text: str) -> Callable[[ast.AST], bool]:
 def run_controls(ctx: Ctx, rep: Report, mod) -> None:
     rules = dict(mod.RULES)
     base = {(o.rule, o.instance) for o in rep.obs if not o.held}
+    firing = {o.rule.rsplit(":", 1)[0] for o in rep.obs if not o.held}
     for c in mod.CONTROLS:
         rule, name, modname, edit = c["rule"], c["name"], c["module"], c["edit"]
         if rep.tier == "quick" and getattr(rules.get(rule), "thorough_only", False):
+            continue
+        if rule in firing:
+            # the rule is reporting on this tree already: it is demonstrably alive, and a
+            # control edit of a construct that is itself in violation proves nothing more
+            rep.control(rule, name, True, "rule already reporting on this tree")
             continue
         try:
             new_src = edit(ctx)
